@@ -574,6 +574,9 @@ class OpeningMonitor:
                     for v in (r if isinstance(r, list) else [r]):
                         if isinstance(v, finfields.FiniteFieldElement) and isinstance(v.value, int):
                             vals.append((int(v.value), int(type(v).order)))
+                        elif hasattr(v, 'value') and hasattr(v.value, 'shape') and hasattr(type(v), 'field'):
+                            # a field array opened by one of the np_ protocols: its first few entries
+                            vals.extend((int(e), int(type(v).field.order)) for e in list(v.value.flat)[:4])
                     if vals:
                         mon.openings.append((site, vals))
                 if isinstance(fut, asyncio.Future):
